@@ -3,6 +3,12 @@
 import json
 PROPS = [json.loads(l) for l in open('/verif/properties.jsonl')]
 CLAIMED = {
+ "C09": dict(
+    category="proof",
+    text="Coq theorems prove that the rebinned WCS reports, for ANY inner WCS, the inner coordinates at j*f+(f-1)/2 on every axis (C09_wcs, C09_block_centre_positions, C09_block_centre), that this registration holds iff the offset is (f-1)/2 (C09_centre_iff_offset), that output pixel edges are every f-th source edge, f=1 axes are untouched and rebin-of-rebin composes (C09_edges, C09_unit_factor, C09_rebin_of_rebin), and that the arange-and-filter grid of ExtraCoords.resample with that offset is exactly the M block centres for every integer factor and axis length M*f, where the tables are sampled by linear interpolation (C09_grid, C09_extra). Tied to /repo by exact decoding of the linear probe WCS at centres and edges, table comparison (Quantity / Time / SkyCoord, plain / sliced / rebinned sources) and a direct oracle on TAN / rotated families.",
+    design_ref="DESIGN.md §5.9",
+    note="Trusted: Coq kernel + VM; Model/M_Resample.v transcription; tab_eval is a dependency model of np.interp / interpn linear interpolation (validated by the same run); Time tables compared to 1e-5 s; WCS-backed ExtraCoords not generated.",
+    technique="Coq proof (field/lra over Q, ceiling/arange lemma) over hand-written Gallina model + vm_compute correspondence check"),
  "C08": dict(
     category="proof",
     text="Coq theorems C08_block / C08_values prove, for every dimensionality and every bin shape dividing the array shape, that reading the array through the reshape to (m0,b0,m1,b1,...) and reducing over the odd axes gives for output j exactly the operation over the inputs at j*b+r (masked inputs excluded unless the operation ignores the mask); C08_plan is the acceptance / refusal / new-shape decision; C08_flat describes the block-major array handed to a propagation function. Proof rests on interleave_ravel + unravel_ravel (row-major index arithmetic, proved by induction/nia). Tied to /repo by a correspondence check (exact rational comparison of every output element, mask, unit, meta, identity for all-ones) plus an explicit-loop oracle.",
